@@ -9,6 +9,7 @@ pub mod c06;
 pub mod c07;
 pub mod c08;
 pub mod c09;
+pub mod c10;
 pub mod c11;
 pub mod c12;
 pub mod c13;
@@ -27,6 +28,7 @@ pub const TABLE: &[(&str, fn(&mut Run))] = &[
     ("C07", c07::run),
     ("C08", c08::run),
     ("C09", c09::run),
+    ("C10", c10::run),
     ("C11", c11::run),
     ("C12", c12::run),
     ("C13", c13::run),
